@@ -473,6 +473,20 @@ def single_exit(body, on_return):
                 out.append(ast.copy_location(ast.If(test=s.test, body=b or [ast.Pass()], orelse=o), s))
                 return out
             if isinstance(s, ast.Try) and _contains(s, ast.Return):
+                if (rest or tail) and not s.finalbody and not any(_contains(x, ast.Return) for x in s.body):
+                    # try: A  except E: .. return ..   followed by REST: REST runs when A went through, or a handler fell through --
+                    # unprotected either way: it is the try's `else` and the end of the handlers that fall through
+                    cont = list(rest) + list(tail)
+                    s2 = copy.copy(s)
+                    hs = []
+                    for h in s.handlers:
+                        h2 = copy.copy(h)
+                        h2.body = rec(list(h.body), [copy.deepcopy(x) for x in cont])
+                        hs.append(h2)
+                    s2.handlers = hs
+                    s2.orelse = rec(list(s.orelse), [copy.deepcopy(x) for x in cont])
+                    out.append(s2)
+                    return out
                 if rest or tail:
                     raise NoCanon("return inside try followed by statements")
                 s2 = copy.copy(s)
@@ -3156,8 +3170,18 @@ class Canon:
         with S a private module-level sentinel `S = object()` (only this module can name it, E does not): which branch of the `if`
         runs is decided by how the try ended, so  try: x = E  except Exc: A  else: B.   Same for `if c: x = E else: x = S`."""
         sentinels = {n for n, v in module.assigns.items() if n.startswith("_") and isinstance(v, ast.Call) and u(v.func) == "object" and not v.args and not v.keywords}
-        if not sentinels:
+        if not sentinels and not any(isinstance(n, ast.Try) for s_ in stmts for n in ast.walk(s_)):
             return stmts
+
+        def some(e):
+            # certainly not None: a display, a number, .. or what a class (spelled with a capital) constructs
+            if norm._never_none(e, {}):
+                return True
+            if isinstance(e, ast.Call):
+                f_ = e.func
+                nm_ = f_.id if isinstance(f_, ast.Name) else (f_.attr if isinstance(f_, ast.Attribute) else "")
+                return nm_.lstrip("_")[:1].isupper()
+            return False
 
         def last_assign(block):
             """(name, value) assigned by the last statement of a block that falls through"""
@@ -3185,12 +3209,16 @@ class Canon:
                 s2 = b[i + 1] if i + 1 < len(b) else None
                 done = False
                 if isinstance(s2, ast.If) and isinstance(s2.test, ast.Compare) and len(s2.test.ops) == 1 and isinstance(s2.test.ops[0], (ast.Is, ast.IsNot)) \
-                        and isinstance(s2.test.left, ast.Name) and isinstance(s2.test.comparators[0], ast.Name) and s2.test.comparators[0].id in sentinels:
-                    x, S = s2.test.left.id, s2.test.comparators[0].id
+                        and isinstance(s2.test.left, ast.Name) and (
+                            (isinstance(s2.test.comparators[0], ast.Name) and s2.test.comparators[0].id in sentinels)
+                            or (isinstance(s1, ast.Try) and isinstance(s2.test.comparators[0], ast.Constant) and s2.test.comparators[0].value is None)):
+                    # (None is a sentinel when what the other arm files certainly is not None; if / else on None: norm.thread_none_flags)
+                    x = s2.test.left.id
+                    S = s2.test.comparators[0].id if isinstance(s2.test.comparators[0], ast.Name) else None
                     is_s, not_s = (s2.body, s2.orelse) if isinstance(s2.test.ops[0], ast.Is) else (s2.orelse, s2.body)
                     arms = None
-                    if isinstance(s1, ast.Try) and not s1.finalbody and not s1.orelse and s1.handlers:
-                        arms = [s1.body] + [h.body for h in s1.handlers]
+                    if isinstance(s1, ast.Try) and not s1.finalbody and s1.handlers:
+                        arms = [s1.orelse or s1.body] + [h.body for h in s1.handlers]
                     elif isinstance(s1, ast.If) and s1.orelse:
                         arms = [s1.body, s1.orelse]
                     if arms is not None:
@@ -3203,7 +3231,15 @@ class Canon:
                             if la is None or la[0] != x:
                                 kinds = None
                                 break
-                            if isinstance(la[1], ast.Name) and la[1].id == S:
+                            if S is None:
+                                if isinstance(la[1], ast.Constant) and la[1].value is None:
+                                    kinds.append("S")
+                                elif some(la[1]):
+                                    kinds.append("V")
+                                else:
+                                    kinds = None
+                                    break
+                            elif isinstance(la[1], ast.Name) and la[1].id == S:
                                 kinds.append("S")
                             elif not mentions(la[1], sentinels):
                                 kinds.append("V")
@@ -3215,14 +3251,17 @@ class Canon:
                                 c_ = copy.deepcopy(is_s if k == "S" else not_s) or []
                                 if k == "S":
                                     # (the local is the sentinel there: reads of it name the sentinel, its assignment is dropped)
-                                    c_ = [norm._Subst({x: ast.Name(id=S, ctx=ast.Load())}).visit(y) for y in c_]
+                                    if x not in norm._assigned_names(c_):
+                                        c_ = [norm._Subst({x: ast.Name(id=S, ctx=ast.Load()) if S is not None else ast.Constant(None)}).visit(y) for y in c_]
                                 return c_
                             if isinstance(s1, ast.Try):
                                 if kinds[0] == "V" and all(k in ("S", "end") for k in kinds[1:]):
                                     for h, k in zip(s1.handlers, kinds[1:]):
                                         if k == "S":
-                                            h.body = h.body[:-1] + cont("S")
-                                    s1.orelse = cont("V") or [ast.copy_location(ast.Pass(), s1)]
+                                            c_s = cont("S")
+                                            later = not _terminates(c_s) and any(isinstance(n, ast.Name) and n.id == x for y in b[i + 2:] for n in ast.walk(y))
+                                            h.body = (h.body if later else h.body[:-1]) + c_s
+                                    s1.orelse = (s1.orelse + cont("V")) or [ast.copy_location(ast.Pass(), s1)]
                                     done = True
                             else:
                                 s1.body = s1.body + (cont(kinds[0]) if kinds[0] != "end" else [])
@@ -3245,6 +3284,65 @@ class Canon:
                 else:
                     flat.append(s_)
             return flat
+        return block(stmts)
+
+    def records_out_of_try(self, stmts, module):
+        """try: ..; x = _Rec(E)  except Exc: <leaves>          try: ..; x__1 = E  except Exc: <leaves>
+                                                        ->     x = _Rec(x__1)
+        filing values in a private record (dataclass / NamedTuple without code of its own) cannot fail: only computing them is what
+        the try protects"""
+        known = known_defs()
+
+        def plain_record(e):
+            if not (isinstance(e, ast.Call) and isinstance(e.func, ast.Name) and e.func.id.startswith("_") and f"class:{e.func.id}" not in known):
+                return False
+            c = module.classes.get(e.func.id)
+            if c is None or any(n_ in c.methods for n_ in ("__init__", "__post_init__", "__new__", "__setattr__")):
+                return False
+            if any(isinstance(a, ast.Starred) for a in e.args) or any(k.arg is None for k in e.keywords):
+                return False
+            is_nt = any(u(b_).split(".")[-1] == "NamedTuple" for b_ in c.node.bases)
+            if not (is_nt or (c.is_dataclass and all(k_.is_dataclass or k_.name == "object" for k_ in c.mro[1:] if isinstance(k_, Class)))):
+                return False
+            # (the call fits the fields: no TypeError either)
+            params = [f.name for f in (c.fields if is_nt else c.all_fields()) if (is_nt or f.init) and not f.classvar]
+            given = params[:len(e.args)] + [k.arg for k in e.keywords]
+            return len(e.args) <= len(params) and len(set(given)) == len(given) and set(given) <= set(params) and \
+                all(f.name in given or f.has_default for f in (c.fields if is_nt else c.all_fields()) if f.name in params)
+
+        cnt = [0]
+
+        def block(b):
+            out = []
+            for s_ in b:
+                _recurse_blocks(s_, block)
+                if isinstance(s_, ast.Try):
+                    for h in s_.handlers:
+                        h.body = block(h.body)
+                out.append(s_)
+                if isinstance(s_, ast.Try) and s_.body and not s_.orelse and not s_.finalbody and s_.handlers and all(_terminates(h.body) for h in s_.handlers):
+                    st = s_.body[-1]
+                    if isinstance(st, ast.Assign) and len(st.targets) == 1 and isinstance(st.targets[0], ast.Name) and plain_record(st.value):
+                        call = copy.deepcopy(st.value)
+                        pre = []
+                        slots = [(call.args, i_) for i_ in range(len(call.args))] + [(k, None) for k in call.keywords]
+                        for holder, i_ in slots:
+                            v = holder[i_] if i_ is not None else holder.value
+                            if _simple_arg(v):
+                                continue
+                            cnt[0] += 1
+                            nm = f"{st.targets[0].id}__t{cnt[0]}"
+                            pre.append(ast.copy_location(ast.Assign(targets=[ast.Name(id=nm, ctx=ast.Store())], value=v), st))
+                            if i_ is not None:
+                                holder[i_] = ast.Name(id=nm, ctx=ast.Load())
+                            else:
+                                holder.value = ast.Name(id=nm, ctx=ast.Load())
+                        if pre:
+                            s_.body = s_.body[:-1] + pre
+                            out.append(ast.copy_location(ast.Assign(targets=[st.targets[0]], value=call), st))
+            return out
+        if not any(isinstance(n, ast.Try) for s_ in stmts for n in ast.walk(s_)):
+            return stmts
         return block(stmts)
 
     def keys_to_items(self, stmts, module, cls):
@@ -4901,7 +4999,10 @@ class Canon:
         b = self.sink_record_tail(b, module)         # (a tail left over once the `is None` arm went into its branch)
         b = lift_ifexp(self._project_helper_objects(b, module))      # (a record filed in each branch, read by the arm that was moved there)
         b = norm.fold_none_tests(b)             # `if count is not None` on a count a helper just computed
-        b = self.thread_sentinels(b, module)
+        b_s = self.thread_sentinels([copy.deepcopy(x) for x in b], module)
+        if ast.dump(ast.Module(body=b_s, type_ignores=[])) != ast.dump(ast.Module(body=b, type_ignores=[])):
+            b_s = self.records_out_of_try(b_s, module)
+            b = lift_ifexp(self._project_helper_objects(self.sroa_value_records(b_s, module), module))      # (a record filed by the try and read after it)
         b = self.fold_enum_tests(b, module)
         b = norm.thread_const_flags(b, self._enum_member_key)      # a verdict filed as a constant / enum member and asked again straight afterwards
         b = self.call_layout(b, module, cls)
